@@ -157,6 +157,7 @@ func runC08(c *core.Ctx) {
 	std = append(std, loadCorpus(c, cb, "protocol")...)
 	nPub, nGuarded, nNoSelf, nCoro, nArgChecked, nDerived, nInit := 0, 0, 0, 0, 0, 0, 0
 	brk := ioBracketStats{}
+	stale := staleStats{}
 	for _, p := range std {
 		src, err := os.ReadFile(p.CPath)
 		if err != nil {
@@ -184,6 +185,7 @@ func runC08(c *core.Ctx) {
 				nDerived++
 			}
 			reportIOBrackets(c, fn, &brk)
+			checkStaleIndex(c, fn, &stale)
 			if !f.Public() {
 				continue
 			}
@@ -238,6 +240,7 @@ func runC08(c *core.Ctx) {
 	c.Floor("G3", "public coroutines", nCoro, 60)
 	c.Floor("G5", "functions with derived I/O pointers", nDerived, 100)
 	c.Floor("G6", "initializers", nInit, 28)
+	c.Floor("G10", "reads of a mirrored buffer index in generated C", stale.reads, 200)
 	c.Floor("G9", "saved derived I/O bounds (io_bind / io_limit / io_forget_history blocks)", brk.vars, 20)
 
 	runC08CallSeq(c, std)
